@@ -23,6 +23,10 @@ pub struct Case {
     pub events: Vec<EvSpec>,
     pub max_step: Option<f64>,
     pub max_steps: Option<usize>,
+    /// roots of additional non-terminal time events t - c, placed on the plain run's step grid (on a step
+    /// end exactly: the event function is then exactly zero at an accepted step; beside one; mid-step)
+    #[serde(default)]
+    pub ev_places: Vec<Place>,
 }
 
 struct One {
@@ -76,6 +80,10 @@ pub fn check(c: &Case) -> Outcome {
     let p = &plain.sol;
     // requested times are placed relative to the plain run's own step grid
     let te = resolve_places(&c.t_eval, &p.t, sp);
+    let mut evs = evs;
+    for (k, t) in resolve_places(&c.ev_places, &p.t, sp).into_iter().enumerate() {
+        evs.push(EvSpec { g: Ev::Time { c: t }, dir: (k % 3) as i8 - 1, terminal: None });
+    }
     let mut subsets_checked = 0;
     for mask in 0u8..9 {
         // mask 8 = repeat of the plain call
@@ -161,8 +169,9 @@ pub fn strategy() -> BoxedStrategy<Case> {
         proptest::collection::vec(event_spec(6, false), 0..=3),
         proptest::option::weighted(0.2, fr(0.02, 0.5)),
         proptest::option::weighted(0.1, 3usize..60),
+        prop_oneof![1 => Just(vec![]).boxed(), 1 => places(3).boxed()],
     )
-        .prop_map(|(prob, span, method, (rtol, atol), analytic_jac, t_eval, events, max_step, max_steps)| Case { prob, span, method, rtol, atol, analytic_jac, t_eval, events, max_step, max_steps })
+        .prop_map(|(prob, span, method, (rtol, atol), analytic_jac, t_eval, events, max_step, max_steps, ev_places)| Case { prob, span, method, rtol, atol, analytic_jac, t_eval, events, max_step, max_steps, ev_places })
         .boxed()
 }
 
